@@ -133,8 +133,12 @@ where
             "ai" => {
                 if ticks.len() < 2 {
                     let period = (o.arg(1) as u64).max(1) * 1_000_000;
+                    let before = waitset.len();
                     match waitset.attach_interval(Duration::from_nanos(period)) {
                         Ok(g) => {
+                            if waitset.len() != before + 1 {
+                                e.err("len", format!("{what}: len() is {} after a successful attach_interval, was {before}", waitset.len()));
+                            }
                             ticks.push(Tick { guard: g, start: now(), period });
                             e.probe("interval_attached");
                         }
@@ -155,7 +159,13 @@ where
             "di" => {
                 if !ticks.is_empty() {
                     let t = ticks.remove(o.arg(1) as usize % ticks.len());
+                    let before = waitset.len();
                     drop(t.guard);
+                    // the attachment's capacity slot comes back with the guard (a leaked slot ends in
+                    // InsufficientCapacity although nothing is attached)
+                    if waitset.len() + 1 != before {
+                        e.err("len", format!("{what}: dropping an interval guard changed len() from {before} to {}", waitset.len()));
+                    }
                 }
             }
             "nt" => {
